@@ -344,7 +344,7 @@ func (fr *Frame) applyContract(n *vnode, instr *ssa.Call, con *Contract, callee 
 		x.vc.Assume(Implies(n.reach, t))
 	}
 	if con.Trusted {
-		x.eng.Note("assumed contract: " + con.Key)
+		x.eng.usedTrusted[con.Key] = true
 	}
 	oldHeap := cloneHeap(n.heap)
 	// havoc what the callee may modify
